@@ -636,8 +636,18 @@ def long_digit_cases(rng, n):
     for k in range(n):
         digits = "".join(rng.choice("0123456789")
                          for _ in range(rng.choice((22, 28, 34, 40, 60))))
-        v = k % 6
-        if v == 0:
+        v = k % 7
+        if v == 6:
+            # a repetition count beyond the range of a float (the interval
+            # arithmetic fails at once; counts below that are arithmetic
+            # proportional to their size and are not generated)
+            huge = "".join(rng.choice("123456789")
+                           for _ in range(rng.choice((320, 400, 1000))))
+            text = "R" + huge + rng.choice((
+                "/2000-01-01T00:00:00Z/P1D", "/PT1H/20000101T00Z",
+                "/2000-W01-1T06Z/P1Y"))
+            parser = "TimeRecurrenceParser"
+        elif v == 0:
             text = "PT" + digits + rng.choice(units)
             parser = "DurationParser"
         elif v == 1:
